@@ -15,6 +15,7 @@ pub fn gen(stream: &str, r: &mut Rng, index: u64) -> String {
         "reader" => decode::gen_reader(r, index),
         "readerx" => decode::gen_readerx(r, index),
         "xmark" => decode::gen_xmark(r, index),
+        "noalloc" => decode::gen_noalloc(r, index),
         "iter" => decode::gen_iter(r, index),
         "rrset" => decode::gen_rrset(r, index),
         "nameeq" => decode::gen_nameeq(r, index),
@@ -32,6 +33,8 @@ pub fn eval(line: &str) -> String {
         Some("rdata") => decode::eval_rdata(&toks),
         Some("reader") => decode::eval_reader(&toks),
         Some("xmark") => decode::eval_xmark(&toks),
+        Some("noalloc") => decode::eval_noalloc(&toks),
+        Some("noalloci") => decode::eval_noalloc_iter(&toks),
         Some("iter") => decode::eval_iter(&toks),
         Some("rrset") => decode::eval_rrset(&toks),
         Some("nameeq") => decode::eval_nameeq(&toks),
